@@ -185,12 +185,39 @@ def make_gen(fn):
     return gen
 
 
+def narrowing_calls(fn, e, vv):
+    """predicate calls P such that the element narrows the verdict with them: V &= P(..), V = V & P(..), V = V && P(..)"""
+    out = []
+    for sub in ir.walk(fn, e):
+        rhs = None
+        if sub[0] == "o=" and sub[1] == "&=" and ir.strip_casts(sub[2]) == ["v", vv]:
+            rhs = sub[3]
+        elif sub[0] == "=" and ir.strip_casts(sub[1]) == ["v", vv]:
+            r = ir.peel(fn, sub[2])
+            if isinstance(r, list) and r[0] == "b" and r[1] in ("&", "&&"):
+                l, rr = ir.peel(fn, r[2]), ir.peel(fn, r[3])
+                if l == ["v", vv]:
+                    rhs = r[3]
+                elif rr == ["v", vv]:
+                    rhs = r[2]
+        if rhs is not None:
+            c = ir.peel(fn, rhs)
+            if isinstance(c, list) and c[0] == "c" and c[1]:
+                out.append(c)
+    return out
+
+
 def guards_at_accepts(ctx, prog, fn):
-    """(verdict var, [(node, text, described atoms)])"""
+    """(verdict var, [(node, text, described atoms, group)])"""
     vv = verdict_var(fn)
     if vv is None:
         return None, []
     g = ctx.xcfg(prog, fn)
+    evs0 = accept_events(fn, g, vv, accept_is_zero(fn))
+    style_b = (not accept_is_zero(fn)) and any(nd.el.e[0] == "d" or (nd.el.e[0] == "=" and ir.peel(fn, nd.el.e[2])[0] == "i") and not F_has_facts(nd) for nd, _ in evs0) \
+        and any(narrowing_calls(fn, el.e, vv) for el in fn.all_elements())
+    if style_b:
+        return vv, guards_at_return(ctx, prog, fn, g, vv)
     F = Facts(prog, g, gen=make_gen(fn), mark_thrown=False)
     out = []
     groups = case_groups(fn, g)
@@ -205,6 +232,53 @@ def guards_at_accepts(ctx, prog, fn):
                 descs.add(d)
         out.append((n, txt, descs, groups.get(n.id, "")))
     return vv, out
+
+
+def F_has_facts(nd):
+    return False
+
+
+def guards_at_return(ctx, prog, fn, g, vv):
+    """verifiers that start from "valid" and narrow: the guards are the predicates the verdict was narrowed with on
+    every path to the return (paths on which the verdict was set to 0 are rejecting and impose nothing)"""
+    base_gen = make_gen(fn)
+
+    def gen(node, s, pre):
+        out = list(base_gen(node, s, pre))
+        for c in narrowing_calls(fn, node.el.e, vv):
+            k = key(fn, c)
+            d = describe_key(fn, k, s)
+            if d is not None and PRED_CALLS.match(c[1]):
+                out.append(("ev", "narrow", d))
+        return out
+
+    def kill(node, s):
+        # verdict = 0: the rest of the path rejects
+        for sub in ir.walk(fn, node.el.e):
+            if sub[0] == "=" and ir.strip_casts(sub[1]) == ["v", vv]:
+                r = ir.peel(fn, sub[2])
+                if isinstance(r, list) and r[0] == "i" and r[1] == 0:
+                    return engines.UNIVERSE
+        return s
+    F = Facts(prog, g, gen=gen, extra_kill=kill, mark_thrown=False)
+    out = []
+    for p, l in g.exit.pred:
+        s = F.IN.get(p)
+        if s is None:
+            continue
+        s2 = F._transfer(p, s)
+        if s2 is engines.UNIVERSE:
+            continue
+        descs = set()
+        for a in s2:
+            if a[0] == "ev" and a[1] == "narrow":
+                descs.add((a[2], "!=", 0))
+            else:
+                d = describe_atom(fn, a, s2)
+                if d is not None:
+                    descs.add(d)
+        out.append((p, "return %s" % fn.vars[vv]["n"], descs, ""))
+    return out
 
 
 def case_groups(fn, g):
@@ -355,6 +429,65 @@ def rule_ver_catch(ctx, prog, chk):
     return n
 
 
+# ---------------------------------------------------------------------- VER-FAIL
+FAIL_NONZERO = re.compile(r"^(gt_cmp|g1_cmp|g2_cmp|ec_cmp|ep_cmp|ep2_cmp|util_cmp_sec|util_cmp_const|memcmp)$")
+FAIL_ZERO = re.compile(r"^(gt_is_unity|\w+_is_valid)$")
+
+
+def rule_ver_fail(ctx, prog, chk):
+    """once the verification equation was found not to hold (a comparison against the expected value failed), no
+    path returns an accepting verdict — only for verifiers whose *last* decisive comparison is tested in a branch"""
+    n = 0
+    for fn in verifiers(prog):
+        if accept_is_zero(fn) or not re.search(r"_(pd|lv)(pub|prv)_ver$", fn.name.split("__")[-1]):
+            continue
+        vv = verdict_var(fn)
+        if vv is None:
+            continue
+        g = ctx.xcfg(prog, fn)
+        IN = {g.entry: frozenset([(0, 1)])}
+        work = [g.entry]
+        has = False
+        while work:
+            nd = work.pop()
+            st = IN[nd]
+            out = st
+            if nd.kind == "el" and not nd.proto:
+                for sub in ir.walk(fn, nd.el.e):
+                    rhs = None
+                    if sub[0] == "=" and ir.strip_casts(sub[1]) == ["v", vv]:
+                        rhs = sub[2]
+                    elif sub[0] == "d" and sub[1] == vv and sub[2] is not None:
+                        rhs = sub[2]
+                    if rhs is not None:
+                        m = may_accept(fn, rhs, vv, False)
+                        if m is not None:
+                            out = frozenset((f, 1 if m else 0) for f, t in out)
+            for m, label in nd.succ:
+                o2 = out
+                if nd.kind == "br" and label in ("T", "F"):
+                    t = nd.info.get("term")
+                    if t and t.get("c") is not None:
+                        for a in engines.cond_atoms(fn, t["c"], label == "T"):
+                            if a[0] == "cmp" and isinstance(a[1], tuple) and a[1][0] == "c" and isinstance(a[1][1], str):
+                                if FAIL_NONZERO.match(a[1][1]) and engines.entails(a[2], a[3], "!=", 0):
+                                    has = True
+                                    o2 = frozenset((1, t2) for f, t2 in o2)
+                cur = IN.get(m)
+                new = o2 if cur is None else (cur | o2)
+                if cur is None or new != cur:
+                    IN[m] = new
+                    work.append(m)
+        if not has:
+            continue
+        n += 1
+        if (1, 1) in IN.get(g.exit, ()):
+            chk.fail("VER-FAIL", fn, fn.vars[vv]["n"], "a path on which the check equation was found not to hold returns a verdict that may be accepting", line=fn.line)
+        else:
+            chk.ok("VER-FAIL", fn, fn.vars[vv]["n"], "after a failed check equation every return carries 0", line=fn.line)
+    return n
+
+
 # ---------------------------------------------------------------------- VER-AGG
 def rule_ver_agg(ctx, prog, chk):
     n = 0
@@ -468,7 +601,7 @@ def analyse(ctx, prog, chk, table=None):
     chk.used_program(prog)
     table = table if table is not None else load_table()
     return {"guards": rule_ver_guard(ctx, prog, chk, table), "catch": rule_ver_catch(ctx, prog, chk),
-            "agg": rule_ver_agg(ctx, prog, chk), "status": rule_status_use(ctx, prog, chk)}
+            "agg": rule_ver_agg(ctx, prog, chk), "status": rule_status_use(ctx, prog, chk), "fail": rule_ver_fail(ctx, prog, chk)}
 
 
 def selfcheck(ctx, prog, chk):
